@@ -35,6 +35,7 @@ type Base struct {
 	failAt  int // 1-based index (within the current plan) of the write that fails; 0 = none
 	mode    Mode
 	counter int
+	loadFailAt, loads int // 1-based index of the LoadRange call that fails; 0 = none
 	parkAt  int           // 1-based index of the write that blocks until Release; 0 = none
 	parked  chan struct{} // signalled when the write is parked
 	release chan struct{}
@@ -77,7 +78,21 @@ func (b *Base) Take() []Write {
 
 func (b *Base) Load(key string) (string, error) { return b.Inner.Load(key) }
 func (b *Base) LoadRange(key, endKey string, limit int) ([]string, []string, error) {
+	b.mu.Lock()
+	b.loads++
+	fail := b.loadFailAt != 0 && b.loads == b.loadFailAt
+	b.mu.Unlock()
+	if fail {
+		return nil, nil, ErrInjected
+	}
 	return b.Inner.LoadRange(key, endKey, limit)
+}
+
+// PlanLoadFail makes the n-th LoadRange call from now on fail (0 = none).
+func (b *Base) PlanLoadFail(n int) {
+	b.mu.Lock()
+	defer b.mu.Unlock()
+	b.loadFailAt, b.loads = n, 0
 }
 
 func (b *Base) write(w Write) error {
